@@ -20,6 +20,9 @@
 (*        mv  xmasked_value<T,B> (masked_value(value, visible)) 2 components *)
 (*        br  bitset element reference (bs[i])                               *)
 (*        fs  forward_sequence<R,A>(a)                                       *)
+(*        ob  xoptional<T&, bitset::reference> (an element of an              *)
+(*            xoptional_vector): value in a caller variable, flag a bit       *)
+(*                                                              2 components *)
 (* Every public call is one action, its C++ arguments are the action        *)
 (* parameters; ghost last = [op,k,a,res], ghost hist = the calls so far.     *)
 (* Where C++ leaves a value unspecified (moved-from objects) every allowed   *)
@@ -94,11 +97,12 @@ KillOwn(c, k)   == [c EXCEPT ![OTab[k][1]] = Dead, ![OTab[k][2]] = Dead]
 ----------------------------------------------------------------------------
 (* Wrappers *)
 NoW         == [kind |-> "none", c |-> <<>>]
-AllKinds    == {"cw", "cp", "pw", "opt", "cx", "mv", "br", "fs"}
-NComp(kind) == IF kind \in {"opt", "cx", "mv"} THEN 2 ELSE 1
+AllKinds    == {"cw", "cp", "pw", "opt", "cx", "mv", "br", "fs", "ob"}
+NComp(kind) == IF kind \in {"opt", "cx", "mv", "ob"} THEN 2 ELSE 1
 CompClass(kind, i) == CASE kind = "br" -> "b"
                         [] kind = "fs" -> "s"
                         [] kind \in {"opt", "mv"} /\ i = 2 -> "f"
+                        [] kind = "ob" /\ i = 2 -> "b"
                         [] OTHER -> "x"
 Comps(W)       == 1..Len(W.c)
 IsRef(W, i)    == W.c[i].m = "ref"
@@ -125,7 +129,8 @@ Copyable       == payload # "moveonly"
 (* name of a caller variable, or "self" = storage inside the wrapper itself. *)
 (* A bitset reference has no address: its target is reported as "bit" and    *)
 (* its aliasing shows in the values.                                          *)
-Target(W, i) == IF W.kind = "br" THEN "bit" ELSE IF IsOwn(W, i) THEN "self" ELSE W.c[i].id
+IsBit(W, i)  == CompClass(W.kind, i) = "b"
+Target(W, i) == IF IsBit(W, i) THEN "bit" ELSE IF IsOwn(W, i) THEN "self" ELSE W.c[i].id
 ProjW(W) == IF W = NoW THEN [kind |-> "none", c |-> <<>>]
             ELSE [kind |-> W.kind,
                   c |-> [i \in Comps(W) |-> [m |-> W.c[i].m, t |-> Target(W, i), v |-> Val(W.c[i].id)]]]
@@ -170,9 +175,8 @@ Vias(kind) == CASE kind \in {"cw", "cp"} -> {"closure", "const_closure"}
                 [] kind = "fs" -> {"same", "diff"}
                 [] OTHER -> {"std"}
 CatsFor(kind, i) ==
-    CASE kind = "br" -> LvCats
+    CASE kind \in {"br", "ob"} -> LvCats
       [] CompClass(kind, i) = "f" -> {"lv", "clv", "pr"}
-      [] kind \in {"opt", "cx", "mv"} -> AllCats \ {"cxvar"}
       [] OTHER -> AllCats
 
 SrcOK(kind, via, i, src) ==
@@ -205,7 +209,8 @@ Make(k, kind, via, srcs) ==
     /\ Cardinality({i \in 1..Len(srcs) : srcs[i].cat = "xtemp"}) <= Cardinality(FreeT)
     (* caller preconditions: one object is not moved from twice in one expression; a sequence converted *)
     (* to a fixed-size one has that size (a moved-from, emptied sequence has not)                       *)
-    /\ (Len(srcs) = 2 /\ srcs[1].cat = "xvar" /\ srcs[2].cat = "xvar" /\ CompClass(kind, 1) = CompClass(kind, 2)) => srcs[1].i # srcs[2].i
+    /\ (Len(srcs) = 2 /\ "xvar" \in {srcs[1].cat, srcs[2].cat} /\ {srcs[1].cat, srcs[2].cat} \subseteq {"xvar", "cxvar"}
+           /\ CompClass(kind, 1) = CompClass(kind, 2)) => srcs[1].i # srcs[2].i
     /\ (kind = "fs" /\ via = "diff") => SrcVal(kind, 1, srcs[1]) # MOVED
     /\ LET n  == Len(srcs)
            W  == [kind |-> kind, c |-> [i \in 1..n |-> CompOf(k, kind, via, i, srcs[i])]]
@@ -242,27 +247,41 @@ FormsOf(W) ==
     CASE W.kind = "cw" -> {"get", "cget", "rget", "conv", "cconv"}
       [] W.kind = "pw" -> IF IsRef(W, 1) THEN {"get", "cget", "rget", "conv", "cconv"} ELSE {"base"}
       [] W.kind = "cp" -> {"deref", "cderef", "arrow"}
-      [] W.kind = "opt" -> {"lv", "clv", "rv", "crv", "free", "cfree", "rfree"}
-      [] W.kind \in {"cx", "mv"} -> {"lv", "clv", "rv", "crv"}
+      [] W.kind \in {"opt", "ob", "cx"} -> {"lv", "clv", "rv", "crv", "free", "cfree", "rfree"}   \* members and the free functions value/has_value, real/imag
+      [] W.kind = "mv" -> {"lv", "clv", "rv", "crv"}
       [] W.kind = "br" -> {"conv", "neg"}
       [] W.kind = "fs" -> {"get"}
+(* what reading component i of W by access path `form` yields *)
+ReadItem(W, i, form) ==
+    LET byval == IsOwn(W, i) /\ form \in ByValForms
+    IN [ts |-> IF IsBit(W, i) THEN {"bit"}
+               ELSE IF IsRef(W, i) THEN {W.c[i].id}
+               ELSE IF byval THEN {"value", "self"} ELSE {"self"},
+        v  |-> IF form = "neg" THEN 1 - Val(W.c[i].id) ELSE Val(W.c[i].id)]
 Read(k, form) ==
     /\ w[k] # NoW
     /\ form \in FormsOf(w[k])
     /\ (HasOwn(w[k]) /\ form \in ByValForms) => Copyable
     /\ LET W == w[k]
            byval(i) == IsOwn(W, i) /\ form \in ByValForms
-           item(i)  == [ts |-> IF W.kind = "br" THEN {"bit"}
-                               ELSE IF IsRef(W, i) THEN {W.c[i].id}
-                               ELSE IF byval(i) THEN {"value", "self"} ELSE {"self"},
-                        v  |-> IF form = "neg" THEN 1 - Val(W.c[i].id) ELSE Val(W.c[i].id)]
-       IN Do("Read", k, [form |-> form], Res("any", "na", [i \in Comps(W) |-> item(i)]), cell, w,
+       IN Do("Read", k, [form |-> form], Res("any", "na", [i \in Comps(W) |-> ReadItem(W, i, form)]), cell, w,
              {W.c[i].id : i \in {j \in Comps(W) : byval(j)}})
+
+(* value_or(d): the value when the flag says there is one, d otherwise -- always a new value, never *)
+(* a reference.  The object is only read (the && overload may move out of a value the optional    *)
+(* owns, as std::optional does; never out of an object it merely designates).                      *)
+ValueOr(k, v, d, form) ==
+    /\ w[k] # NoW /\ w[k].kind \in {"opt", "ob"} /\ Copyable
+    /\ v \in Nat /\ d \in {"pr", "lv"} /\ form \in {"clv", "rv", "crv"}
+    /\ LET W == w[k] IN
+       Do("ValueOr", k, [v |-> v, d |-> d, form |-> form],
+          Res("any", "na", <<[ts |-> {"value"}, v |-> IF Val(W.c[2].id) = 1 THEN Val(W.c[1].id) ELSE v]>>),
+          cell, w, IF form = "rv" /\ IsOwn(W, 1) /\ W.c[1].wr THEN {W.c[1].id} ELSE {})
 
 ----------------------------------------------------------------------------
 (* Assigning a value through the wrapper: the designated object changes, the *)
 (* wrapper keeps designating it.                                              *)
-WholeWr(W) == IF W.kind \in {"opt", "cx"} THEN AllWr(W) ELSE W.c[1].wr
+WholeWr(W) == IF W.kind \in {"opt", "cx", "ob"} THEN AllWr(W) ELSE W.c[1].wr
 Assign(k, v, cat) ==
     /\ w[k] # NoW /\ WholeWr(w[k])
     /\ cat \in {"lv", "rv"}
@@ -270,7 +289,7 @@ Assign(k, v, cat) ==
     /\ (cat = "lv" \/ w[k].kind = "mv") => Copyable
     /\ (w[k].kind = "cx") => w[k].c[1].id # w[k].c[2].id      \* (order of the two component writes is not specified)
     /\ LET W == w[k]
-           c1 == CASE W.kind = "opt" -> Upd(Upd(cell, W.c[1].id, v), W.c[2].id, 1)     \* value and "has a value"
+           c1 == CASE W.kind \in {"opt", "ob"} -> Upd(Upd(cell, W.c[1].id, v), W.c[2].id, 1)     \* value and "has a value"
                    [] W.kind = "cx"  -> Upd(Upd(cell, W.c[1].id, v), W.c[2].id, 0)     \* real part; imaginary part zero
                    [] W.kind = "mv"  -> IF Val(W.c[2].id) = 1 THEN Upd(cell, W.c[1].id, v) ELSE cell   \* masked: untouched
                    [] OTHER          -> Upd(cell, W.c[1].id, v)
@@ -279,7 +298,7 @@ Assign(k, v, cat) ==
 (* ... through one accessor of a two-component wrapper (value() = v, has_value() = f, real() = v ...). *)
 (* The rvalue accessor of a reference closure returns the same lvalue.                                  *)
 AssignComp(k, i, v, form) ==
-    /\ w[k] # NoW /\ w[k].kind \in {"opt", "cx", "mv"}
+    /\ w[k] # NoW /\ w[k].kind \in {"opt", "cx", "mv", "ob"}
     /\ i \in Comps(w[k]) /\ w[k].c[i].wr
     /\ form \in {"lv", "rv"} /\ (form = "rv" => IsRef(w[k], i))
     /\ v \in ClsVals(CompClass(w[k].kind, i))
@@ -288,29 +307,34 @@ AssignComp(k, i, v, form) ==
 ----------------------------------------------------------------------------
 (* Copy- and move-construction of a wrapper: reference components designate *)
 (* the same object as the source's; owned components are new objects.        *)
-Clone(k, j, move) ==
+(* (the source expression of a copy is the wrapper as a const lvalue, form "clv", or as a non-const  *)
+(* lvalue, form "lv": the copy is the same either way)                                               *)
+Clone(k, j, move, form) ==
     /\ k # j /\ w[j] # NoW /\ w[j].kind # "fs"
+    /\ form \in (IF move THEN {"xv"} ELSE {"clv", "lv"})
     /\ (HasOwn(w[j]) /\ (~move \/ \E i \in Comps(w[j]) : IsOwn(w[j], i) /\ ~w[j].c[i].wr)) => Copyable
     /\ LET J  == w[j]
            W  == [kind |-> J.kind,
                   c |-> [i \in Comps(J) |-> IF IsRef(J, i) THEN J.c[i] ELSE [m |-> "own", id |-> OId(k, i), wr |-> J.c[i].wr]]]
            c1 == SetOwn(KillOwn(cell, k), k, W, [i \in Comps(J) |-> Val(J.c[i].id)])
-       IN Do(IF move THEN "MoveW" ELSE "CopyW", k, [j |-> j],
+       IN Do(IF move THEN "MoveW" ELSE "CopyW", k, IF move THEN [j |-> j] ELSE [j |-> j, form |-> form],
              Res(IF PayloadAllRef(J) THEN "none" ELSE "any", "na", <<>>),
              c1, [w EXCEPT ![k] = W], IF move THEN OwnIdsOf(J) ELSE {})
-CopyW(k, j) == Clone(k, j, FALSE)
-MoveW(k, j) == Clone(k, j, TRUE)
+CopyW(k, j, form) == Clone(k, j, FALSE, form)
+MoveW(k, j) == Clone(k, j, TRUE, "xv")
 
 ----------------------------------------------------------------------------
 (* Assignment between wrappers: the value(s) designated by j are assigned to *)
 (* the object(s) designated by k; no wrapper is rebound.                      *)
+OptFamily == {"opt", "ob"}          \* xoptional instantiations assign to one another
+TypeOf(W) == <<W.kind, Shape(W)>>
 AssignWOK(K, J, mv) ==
-    /\ K.kind = J.kind
+    /\ K.kind = J.kind \/ (K.kind \in OptFamily /\ J.kind \in OptFamily)
     /\ CASE K.kind = "cw" -> Shape(K) = Shape(J) /\ AllWr(K) /\ (mv = 0 => Copyable)
          [] K.kind = "pw" -> Shape(K) = Shape(J) /\ AllWr(K) /\ (mv = 0 => Copyable)
-         [] K.kind \in {"opt", "mv", "cx"} ->
+         [] K.kind \in {"opt", "mv", "cx", "ob"} ->
                 /\ AllWr(K) /\ Copyable
-                /\ Shape(K) # Shape(J) \/ (AllOwn(K) /\ AllWr(J))
+                /\ TypeOf(K) # TypeOf(J) \/ (AllOwn(K) /\ AllWr(J))
                 /\ (K.kind = "cx" /\ Shape(K) # Shape(J)) => "cx_xassign" \in feat
                 /\ (K.kind = "cx") => (K.c[1].id # J.c[2].id /\ K.c[1].id # K.c[2].id)   \* (order of the component writes is not specified)
          [] K.kind = "br" -> K.c[1].wr
@@ -329,7 +353,7 @@ AssignW(k, j, mv) ==
                                      THEN Upd(cell, K.c[1].id, vj(1))
                                      ELSE Upd(cell, K.c[2].id, 0)
                (* two xmasked_value objects of one (value) type: the ordinary copy/move assignment of the class, member by member *)
-               [] K.kind \in {"opt", "cx", "mv"} -> Upd(Upd(cell, K.c[1].id, vj(1)), K.c[2].id, vj(2))
+               [] K.kind \in {"opt", "cx", "mv", "ob"} -> Upd(Upd(cell, K.c[1].id, vj(1)), K.c[2].id, vj(2))
                [] OTHER -> Upd(cell, K.c[1].id, vj(1))
            swappy == mv = 1 /\ K.kind \in {"cw", "pw"} /\ IsRef(K, 1) = IsRef(J, 1) /\ K.c[1].id # J.c[1].id
        IN IF swappy
@@ -342,8 +366,9 @@ AssignW(k, j, mv) ==
 
 (* swap exchanges the values of the designated objects, component by component *)
 SwapHows(kind) == CASE kind \in {"cw", "pw"} -> {"member", "adl"}
-                    [] kind = "opt" -> {"member"}
+                    [] kind \in {"opt", "ob"} -> {"member"}
                     [] kind = "mv" -> {"member", "adl"}
+                    [] kind = "br" -> {"adl"}          \* using std::swap; swap(r1, r2) on two bit references
                     [] OTHER -> {}
 Swap(k, j, how) ==
     /\ k # j /\ w[k] # NoW /\ w[j] # NoW
@@ -371,18 +396,19 @@ Equal(k, j) ==
 NoWrite == 99
 AddrForms(W) == CASE W.kind = "cw" -> {"lv"}
                   [] W.kind = "pw" -> IF IsRef(W, 1) \/ payload = "int" THEN {"lv"} ELSE {"lv", "rv"}
-                  [] W.kind \in {"opt", "cx"} -> {"lv", "clv", "rv"}
+                  [] W.kind \in {"opt", "cx", "ob"} -> {"lv", "clv", "rv"}
                   [] W.kind = "br" -> {"lv"}
                   [] OTHER -> {}
+AddrItem(W, i, form) == [ts |-> IF IsBit(W, i) THEN {"bit"}
+                                 ELSE IF IsRef(W, i) THEN {W.c[i].id}
+                                 ELSE IF form = "rv" THEN {"value"} ELSE {"self"},
+                          v  |-> Val(W.c[i].id)]
 AddrOf(k, form, wr) ==
     /\ w[k] # NoW /\ form \in AddrForms(w[k])
     /\ (wr # NoWrite) => (wr \in ClsVals(CompClass(w[k].kind, 1)) /\ w[k].c[1].wr /\ form # "clv")
     /\ (form = "rv" /\ \E i \in Comps(w[k]) : IsOwn(w[k], i) /\ ~w[k].c[i].wr) => Copyable
     /\ LET W == w[k]
-           item(i) == [ts |-> IF W.kind = "br" THEN {"bit"}
-                              ELSE IF IsRef(W, i) THEN {W.c[i].id}
-                              ELSE IF form = "rv" THEN {"value"} ELSE {"self"},
-                       v  |-> Val(W.c[i].id)]
+           item(i) == AddrItem(W, i, form)
            written == IF wr = NoWrite \/ (form = "rv" /\ IsOwn(W, 1)) THEN cell ELSE Upd(cell, W.c[1].id, wr)
        IN Do("AddrOf", k, [form |-> form, wr |-> wr], Res("any", "na", [i \in Comps(W) |-> item(i)]),
              written, w, IF form = "rv" THEN OwnIdsOf(W) ELSE {})
@@ -421,21 +447,24 @@ ADestroy    == C("life") /\ \E k \in 1..NW : Destroy(k)
 AEndTemps   == C("life") /\ EndTemps
 AWriteVar   == C("var") /\ \E cls \in VarClasses, i \in 1..MCVars, v \in {0} : i <= NVar(cls) /\ WriteVar(cls, i, v)
 ARead       == C("read") /\ \E k \in 1..NW, form \in AllForms : Read(k, form)
+AValueOr    == C("read") /\ \E k \in 1..NW, v \in Vals, d \in {"pr", "lv"}, form \in {"clv", "rv", "crv"} : ValueOr(k, v, d, form)
 AAssign     == C("assign") /\ \E k \in 1..NW, v \in Vals \cup {0, 1}, cat \in {"lv", "rv"} : Assign(k, v, cat)
 AAssignComp == C("assign") /\ \E k \in 1..NW, i \in 1..2, v \in Vals \cup {0, 1}, form \in {"lv", "rv"} : AssignComp(k, i, v, form)
-ACopyW      == C("clone") /\ \E k, j \in 1..NW : CopyW(k, j)
+ACopyW      == C("clone") /\ \E k, j \in 1..NW, form \in {"clv", "lv"} : CopyW(k, j, form)
 AMoveW      == C("clone") /\ \E k, j \in 1..NW : MoveW(k, j)
 AAssignW    == C("pair") /\ \E k, j \in 1..NW, mv \in {0, 1} : AssignW(k, j, mv)
 ASwap       == C("pair") /\ \E k, j \in 1..NW, how \in {"member", "adl"} : Swap(k, j, how)
 AEqual      == C("pair") /\ \E k, j \in 1..NW : Equal(k, j)
-AAddrOf     == C("addr") /\ \E k \in 1..NW, form \in {"lv", "clv", "rv"}, wr \in {NoWrite, 0} : AddrOf(k, form, wr)
-Next == AMake \/ ADestroy \/ AEndTemps \/ AWriteVar \/ ARead \/ AAssign \/ AAssignComp \/ ACopyW \/ AMoveW
+AAddrOf     == C("addr") /\ \E k \in 1..NW, form \in {"lv", "clv", "rv"}, wr \in {NoWrite, 0} \cup Vals : AddrOf(k, form, wr)
+Next == AMake \/ ADestroy \/ AEndTemps \/ AWriteVar \/ ARead \/ AValueOr \/ AAssign \/ AAssignComp \/ ACopyW \/ AMoveW
         \/ AAssignW \/ ASwap \/ AEqual \/ AAddrOf
 
 Spec == Init /\ [][Next]_vars
 
 (* S->C: every transition TLC takes is written out as (path to the state, call) *)
 Emit == EmitOn => PrintT("@E@" \o ToJson([p |-> payload, f |-> feat, h |-> hist, l |-> [op |-> last'.op, k |-> last'.k, a |-> last'.a]]))
+(* random walks (-simulate): only the calls made in the last state of a walk are written out *)
+EmitDeep == (EmitOn /\ Len(hist) = Depth) => PrintT("@E@" \o ToJson([p |-> payload, f |-> feat, h |-> hist, l |-> [op |-> last'.op, k |-> last'.k, a |-> last'.a]]))
 
 ----------------------------------------------------------------------------
 (* Invariants and action properties of the specification itself: the property *)
@@ -494,7 +523,7 @@ AssignWritesReferent == [][
        /\ \A id \in CellIds \ {w[last'.k].c[1].id} : cell'[id] = cell[id] ]_vars
 (* observers change nothing except possibly moving out of storage the call was entitled to consume *)
 ObserversPure == [][
-    (last'.op \in {"Read", "Equal"}) => w' = w /\ \A id \in VarIds : cell'[id] = cell[id] ]_vars
+    (last'.op \in {"Read", "Equal", "ValueOr"}) => w' = w /\ \A id \in VarIds : cell'[id] = cell[id] ]_vars
 (* when the caller's temporaries die nothing else changes *)
 TempsIndependent == [][
     (last'.op = "EndTemps") => w' = w /\ \A id \in CellIds \ TmpIds : cell'[id] = cell[id] ]_vars
